@@ -128,10 +128,16 @@ def run(repo: Repo, rep: Report, tier: str) -> None:
     n = rule_right_inverse(repo, rep)
     n += rule_inverse_form(repo, rep)
     n += rule_blockwise(repo, rep)
+    # the encoder side of the systematic round trip: message bit j at information_set[j], for every index list
+    from .c01 import rule_systematic_forward
+
+    sci = repo.cls(SYS, "SystematicLinearBlockCodeEncoder")
+    n += rule_systematic_forward(rep, repo.method(sci, "forward"))
     rep.floor("C04 rule instances", n, 28)
     rep.decided_clauses += [
         "right inverse: exact or verified on the returned object; systematic encoders use the selection matrix of their information set",
         "inverse_encode = blockwise x.R mod 2 with the syndrome of the same input; extract_message and project_word delegate / index per block",
         "block reshaping (*lead, L//b, b) <-> (*lead, -1) with divisibility rejection, also in the Hamming and Reed-Muller overrides",
+        "systematic encoders scatter message bit j to information_set[j] and parity to parity_set, with no branch keyed on the index values",
     ]
     rep.undecided_clauses += ["round trip as a value identity for arbitrary user generators"]
